@@ -48,9 +48,14 @@ def mutants(pid):
                         and ('=' in st_ or '(' in st_) and st_.count('(') == st_.count(')') and not re.match(r'^[\w:<>,\s\*&]+\s+\w+(\s*=.*)?;$', st_):
                     res.append((f, ln, text.strip()[:90], code[:len(code) - len(code.lstrip())] + ';'))
                 continue
-            for (pat, rep) in OPS:
+            ops_ = OPS
+            if os.environ.get('OPSET') == 'swap':
+                ops_ = [(r'\((\d), (\d)\)', r'(\2, \1)'), (r'\.x\(\)', '.y()'), (r'\.y\(\)', '.x()'), (r'\[0\]', '[1]'), (r'\[1\]', '[0]'), (r'\[2\]', '[1]'), (r'\blower', 'upper'), (r'\bupper', 'lower'),
+                        (r'std::min\(', 'std::max('), (r'std::max\(', 'std::min('), (r'\.min\(', '.max('), (r'\.max\(', '.min('), (r'\.front\(\)', '.back()'), (r'\.back\(\)', '.front()'), (r'\.row\(', '.col('),
+                        (r'\.col\(', '.row('), (r'\btrue\b', 'false'), (r'\bfalse\b', 'true'), (r'floor\(', 'ceil('), (r'ceil\(', 'floor('), (r'\.transpose\(\)', ''), (r'\.head<', '.tail<'), (r'X', 'Y'), (r'\bZ\b', 'Y')]
+            for (pat, rep) in ops_:
                 mm = re.search(pat, code)
-                if mm and '<<' not in code[:mm.start() + 2][-3:] and not re.search(r'\b(template|static_cast|const_cast|vector|Matrix|std::|include)\b[^;]*$', code[:mm.start()]) or (mm and pat in (r'\bsin\(', r'\bcos\(')):
+                if (mm and os.environ.get('OPSET') == 'swap') or (mm and '<<' not in code[:mm.start() + 2][-3:] and not re.search(r'\b(template|static_cast|const_cast|vector|Matrix|std::|include)\b[^;]*$', code[:mm.start()])) or (mm and pat in (r'\bsin\(', r'\bcos\(')):
                     new = code[:mm.start()] + re.sub(pat, rep, code[mm.start():], count=1)
                     if new != code:
                         res.append((f, ln, text.strip()[:90], new + text[len(code):]))
